@@ -19,6 +19,7 @@
 #include <vector>
 #include <functional>
 #include <limits>
+#include <climits>
 #include <atomic>
 #include <chrono>
 #include <fcntl.h>
